@@ -240,11 +240,12 @@ def classify(spec):
     return None
 
 
-def run_pipeline(spec, timeout=30.0):
-    """execute the real Passes.__call__; returns info dict"""
+def run_pipeline(spec, timeout=30.0, prebuilt=None):
+    """execute the real Passes.__call__; returns info dict.  prebuilt = (Passes, natives) to call
+    ONE Passes object on several circuits in a row (multi-call histories)"""
     from qibo import gates
     circuit = build_circuit(spec)
-    P, nat = build_passes(spec)
+    P, nat = prebuilt if prebuilt is not None else build_passes(spec)
     info = {"circuit": circuit, "passes": P, "nat": nat}
     before = R.queue_canon(circuit)
     wires0 = list(circuit.wire_names)
@@ -440,6 +441,65 @@ def make_cases(tier, rng):
     return cases
 
 
+def make_histories(tier, rng):
+    """ONE Passes object called on a sequence of 2-4 circuits with different wire-name subsets /
+    permutations (state kept by the passes between calls must not leak into the next call).
+    Device nodes are named 0..n-1 in device order for half of the histories (a graph relabelled to
+    circuit positions then has the SAME node set as the device), permuted ints / strings otherwise."""
+    out = []
+    nh = 48 if tier == "quick" else 240
+    devs = [d for d in devices(rng, tier)]
+    nat_names = [None, None, "default", "U3_CZ", "GPI2_iSWAP"]
+    for h in range(nh):
+        devname, g0 = devs[h % len(devs)]
+        n = g0.number_of_nodes()
+        how = "id" if h % 2 == 0 else rng.choice(["perm", "str", "mixed"])
+        g = R.label_variants(g0, rng, how)
+        nodes = list(g.nodes())
+        placers, routers = pipelines_for(devname, n, rng)
+        placer = rng.choice([None, None] + placers)
+        router = rng.choice(routers)
+        natn = rng.choice(nat_names)
+        circuits = []
+        for c in range(rng.randint(2, 4)):
+            k = rng.choice([3, 4, 5]) if devname == "star5" else rng.randint(2, n)
+            wn = rng.sample(nodes, k)
+            if c == 0 and k >= 2:       # first call: wire names certainly out of device order
+                wn = sorted(wn, key=nodes.index, reverse=True)
+            ng = rng.randint(2, 8)
+            if natn is None:
+                gs = R.fix_mid_measurements(R.gen_gates(rng, k, ng, pmid=0), rng)
+            else:
+                gs = gen_float_gates(rng, k, ng, G2)
+            need2 = 2 if (placer and placer[0] == "Subgraph") else (1 if placer and placer[0] == "ReverseTraversal" else 0)
+            while sum(1 for x in gs if len(x[1]) == 2 and x[0] != "M") < max(need2, 1):
+                a, b = rng.sample(range(k), 2)
+                gs.insert(rng.randrange(len(gs) + 1), ["CZ", [a, b], {}])
+            if rng.random() < 0.5:
+                gs += R.gen_trailing(rng, k)
+            circuits.append(dict(k=k, wire_names=wn, gates=gs))
+        out.append((devname, dict(nodes=nodes, edges=[list(e) for e in g.edges()], on_qubits=None,
+                                  pipeline={"pre": True, "placer": placer, "router": router, "natives": natn},
+                                  circuits=circuits)))
+    return out
+
+
+def history_call_spec(hspec, i):
+    c = hspec["circuits"][i]
+    return dict(nodes=hspec["nodes"], edges=hspec["edges"], on_qubits=hspec.get("on_qubits"),
+                pipeline=hspec["pipeline"], k=c["k"], wire_names=c["wire_names"], gates=c["gates"])
+
+
+def run_history(hspec, timeout=30.0):
+    """[(call spec, info)] for the calls of ONE Passes object on the circuits of the history"""
+    pre = build_passes(history_call_spec(hspec, 0))
+    res = []
+    for i in range(len(hspec["circuits"])):
+        sp = history_call_spec(hspec, i)
+        res.append((sp, run_pipeline(sp, timeout=timeout, prebuilt=pre)))
+    return res
+
+
 def defect_cases(rng):
     out = []
     line3 = nx.path_graph(3)
@@ -568,12 +628,14 @@ def parse_coq(v):
 
 
 # ------------------------------------------------------------------ default transpiler of a hardware-like backend
-def default_transpiler_cases(run, found, stats, rng):
+def default_transpiler_cases(run, found, stats, rng, only=None):
+    """the transpiler a hardware-like backend installs (cached in _Global): called on a SEQUENCE of
+    circuits with different wire-name subsets / permutations; every output is checked.
+    only = one recorded history {qubits, connectivity, natives, circuits} to replay"""
     from qibo import Circuit, gates
     from qibo.backends import _Global, NumpyBackend
-    from qibo.transpiler.optimizer import Preprocessing
-    from qibo.transpiler.router import Sabre
-    from qibo.transpiler.unroller import Unroller, NativeGates
+    from qibo.transpiler.unroller import NativeGates
+    from qibo.transpiler.asserts import assert_connectivity, assert_decomposition, assert_placement
 
     class FakeHardware(NumpyBackend):
         def __init__(self, q, conn, nat):
@@ -592,58 +654,86 @@ def default_transpiler_cases(run, found, stats, rng):
         def natives(self):
             return self._n
 
-    saved = (_Global._backend, _Global._transpiler)
-    try:
+    def gen_circuit(qs, first):
+        k = rng.randint(2, len(qs))
+        wn = rng.sample(qs, k)
+        if first:
+            wn = sorted(wn, key=qs.index, reverse=True)     # certainly out of device order
+        gs = []
+        for _ in range(rng.randint(2, 7)):
+            if rng.random() < 0.5:
+                gs.append(["X", [rng.randrange(k)]])
+            else:
+                gs.append([rng.choice(["CNOT", "SWAP"]), rng.sample(range(k), 2)])
+        return {"k": k, "wire_names": wn, "gates": gs, "measure": rng.sample(range(k), k) if k != 2 else [0]}
+
+    def build(cs):
+        c = Circuit(cs["k"], wire_names=list(cs["wire_names"]))
+        for nm, q in cs["gates"]:
+            c.add(getattr(gates, nm)(*q))
+        c.add(gates.M(*cs["measure"], register_name="out"))
+        return c
+
+    if only is not None:
+        histories = [only]
+    else:
+        histories = []
         for qs, conn in ((["a", "b", "c", "d"], [("a", "b"), ("b", "c"), ("c", "d")]),
                          ([0, 1, 2, 3, 4], [(0, 2), (1, 2), (3, 2), (4, 2)]),
+                         ([0, 1, 2, 3, 4], [(0, 1), (1, 2), (2, 3), (3, 4)]),
+                         ([0, 1, 2, 3], [(0, 1), (1, 2), (2, 3), (3, 0)]),
                          (["q1", "q0", "q2"], [("q0", "q1"), ("q1", "q2")])):
             for natives in (["CZ", "GPI2", "RZ", "Z", "I", "M"], ["iSWAP", "U3", "RZ", "Z", "I", "M"], ["CZ", "U3", "M"]):
-                _Global._backend = FakeHardware(qs, conn, natives)
-                _Global._transpiler = None
-                t = _Global.transpiler()
-                kinds = [type(p).__name__ for p in t.passes]
-                run.case(["default_transpiler", qs, natives], True)
-                stats["default_transpiler"] = stats.get("default_transpiler", 0) + 1
-                if kinds != ["Preprocessing", "Sabre", "Unroller"] or set(t.connectivity.nodes) != set(qs):
-                    found.setdefault("default_transpiler:passes", (f"unexpected default pipeline {kinds}", {"qubits": qs}))
-                    continue
-                k = rng.randint(2, len(qs))
-                wn = rng.sample(qs, k)
-                c = Circuit(k, wire_names=wn)
-                # deterministic (classical reversible) circuit: outcomes are certain
-                for _ in range(rng.randint(2, 7)):
-                    if rng.random() < 0.5:
-                        c.add(gates.X(rng.randrange(k)))
-                    else:
-                        a, b = rng.sample(range(k), 2)
-                        c.add(rng.choice([gates.CNOT, gates.SWAP])(a, b))
-                c.add(gates.M(*rng.sample(range(k), k), register_name="out") if k != 2 else gates.M(0, register_name="out"))
+                histories.append({"qubits": qs, "connectivity": [list(e) for e in conn], "natives": natives,
+                                  "circuits": [gen_circuit(qs, i == 0) for i in range(3)]})
+    saved = (_Global._backend, _Global._transpiler)
+    try:
+        for hist in histories:
+            qs, natives = list(hist["qubits"]), list(hist["natives"])
+            conn = [tuple(e) for e in hist["connectivity"]]
+            _Global._backend = FakeHardware(qs, conn, natives)
+            _Global._transpiler = None
+            t = _Global.transpiler()
+            kinds = [type(p).__name__ for p in t.passes]
+            if kinds != ["Preprocessing", "Sabre", "Unroller"] or set(t.connectivity.nodes) != set(qs):
+                found.setdefault("default_transpiler:passes", (f"unexpected default pipeline {kinds}", {"default_transpiler_history": hist}))
+                continue
+            n = len(qs)
+            nat_flag = NativeGates[natives]
+            for ci, cs in enumerate(hist["circuits"]):
+                pre = "default_transpiler:" if ci == 0 else "default_transpiler_reused:"
+                rp = {"default_transpiler_history": hist, "call_index": ci}
+                run.case(["default_transpiler", qs, natives, cs], True)
+                stats["default_transpiler_calls"] = stats.get("default_transpiler_calls", 0) + 1
+                c = build(cs)
+                k = cs["k"]
                 try:
                     out, layout = R.with_timeout(30.0, t, c)
                 except R.RouterTimeout:
                     stats["timeouts"] = stats.get("timeouts", 0) + 1     # termination is not claimed
                     continue
-                n = len(qs)
+                except Exception as e:  # noqa
+                    found.setdefault(pre + "raises", (f"default transpiler raised {type(e).__name__}: {e}", rp))
+                    continue
+                ok_layout = isinstance(layout, dict) and set(layout) == set(out.wire_names) and sorted(layout.values()) == list(range(n))
+                if not ok_layout:
+                    found.setdefault(pre + "layout", (f"final layout {layout} is not a bijection on {out.wire_names}", rp))
+                    continue
+                if list(out.wire_names[:k]) != list(cs["wire_names"]) or sorted(map(str, out.wire_names)) != sorted(map(str, qs)):
+                    found.setdefault(pre + "padding", (f"wire names {cs['wire_names']} -> {out.wire_names}", rp))
                 l2p = [layout[w] for w in out.wire_names]
                 U = R.exact_operator(c.queue, n)
                 V = R.exact_operator(out.queue, n)
                 if not phase_equal(V, R.permuted(U, l2p, n), False):
-                    found.setdefault("default_transpiler:operator", ("default transpiler output is not P.(padded input) up to phase",
-                                                                     {"qubits": qs, "natives": natives}))
-                nat_flag = NativeGates[natives]
-                from qibo.transpiler.asserts import assert_connectivity, assert_decomposition, assert_placement
+                    found.setdefault(pre + "operator", ("default transpiler output is not P.(padded input) up to phase", rp))
                 try:
                     assert_placement(out, t.connectivity)
                     assert_connectivity(t.connectivity, out)
                     assert_decomposition(out, nat_flag)
                 except Exception as e:
-                    found.setdefault("default_transpiler:backend_natives", (f"output violates the backend's own natives/connectivity: {e}",
-                                                                            {"qubits": qs, "natives": natives}))
+                    found.setdefault(pre + "backend_natives", (f"output violates the backend's own natives/connectivity: {e}", rp))
                 if not t.is_satisfied(out):
-                    found.setdefault("default_transpiler:is_satisfied_natives",
-                                     ("_Global._default_transpiler builds Passes(...) without native_gates, so Passes.is_satisfied checks "
-                                      "NativeGates.default() instead of the backend's natives: the pipeline's own output is rejected",
-                                      {"qubits": qs, "natives": natives, "output_gates": sorted({g.name for g in out.queue})}))
+                    found.setdefault(pre + "is_satisfied", ("Passes.is_satisfied rejects the default transpiler's own output", rp))
                 # executing through Circuit.execute: same (certain) outcome as the untranspiled circuit
                 try:
                     r1 = R.with_timeout(30.0, lambda: c(nshots=20).frequencies(registers=True))
@@ -655,8 +745,7 @@ def default_transpiler_cases(run, found, stats, rng):
                     ref.add(g.on_qubits({q: q for q in range(k)}) if not isinstance(g, gates.M) else gates.M(*g.qubits, register_name="out"))
                 r0 = NumpyBackend().execute_circuit(ref, nshots=20).frequencies(registers=True)
                 if dict(r1["out"]) != dict(r0["out"]):
-                    found.setdefault("default_transpiler:outcomes", (f"measured register differs: {dict(r1['out'])} vs {dict(r0['out'])}",
-                                                                     {"qubits": qs, "natives": natives}))
+                    found.setdefault(pre + "outcomes", (f"measured register differs: {dict(r1['out'])} vs {dict(r0['out'])}", rp))
     finally:
         _Global._backend, _Global._transpiler = saved
 
@@ -692,7 +781,7 @@ def restrict_cases(run, found, stats, rng):
                                                        {"device": devname, "selection": sel, "model_only": True}))
 
 
-RULE = ("cases = device (line/star/ring/grid/T, relabelled nodes) x optional on_qubits restriction x circuit on a "
+RULE = ("single calls and multi-call histories (ONE Passes object / the cached default transpiler called on 2-4 circuits in a row); cases = device (line/star/ring/grid/T, relabelled nodes) x optional on_qubits restriction x circuit on a "
         "permuted subset of wire names (k <= device size) x placer {none, Random, Subgraph, ReverseTraversal, Star} x "
         "router {Sabre, ShortestPaths, Star} x native set {none (exact integer data), 6 sets}; non-trivial = the output "
         "differs from the input circuit (padding, renaming, SWAPs or unrolling happened); distinct = distinct spec")
@@ -712,9 +801,20 @@ def main(run):
     found, stats = {}, {}
     cases = make_cases(run.tier, rng) + defect_cases(rng)
     pending = []
-    for devname, spec in cases:
-        info = run_pipeline(spec)
+    runs = [(devname, spec, run_pipeline(spec), None) for devname, spec in cases]
+    for devname, hspec in make_histories(run.tier, rng):
+        for i, (sp, info) in enumerate(run_history(hspec)):
+            runs.append((devname, sp, info, {"history": hspec, "call_index": i}))
+            stats["history_calls"] = stats.get("history_calls", 0) + 1
+            if i > 0:
+                stats["calls_on_a_reused_Passes_object"] = stats.get("calls_on_a_reused_Passes_object", 0) + 1
+    for devname, spec, info, hist in runs:
         bad = end_to_end(spec, info)
+        if hist is not None:
+            # a failure after the first call of a history is a state leak between calls of one Passes object
+            # (keys stay the same as for single calls, so that open known findings keep matching)
+            note = f" [call {hist['call_index']} of a multi-call history on ONE Passes object]"
+            bad = [(k, w + note, {**e, **hist}) for k, w, e in bad]
         nontrivial = "out" in info and R.queue_canon(info["out"]) != R.queue_canon(info["circuit"])
         run.case(spec, nontrivial)
         pl = spec["pipeline"]
@@ -803,6 +903,30 @@ def main(run):
 
 def replay(run, data):
     rp = data.get("replay", {})
+    if rp.get("history"):
+        hspec = rp["history"]
+        run.oblige("replay_executed", True, "replay")
+        anybad = False
+        for i, (sp, info) in enumerate(run_history(hspec, timeout=60)):
+            run.case(sp)
+            for key, what, extra in end_to_end(sp, info):
+                print(f"replay reproduces (call {i} of the history):", key, what)
+                run.find(key, what, {"history": hspec, "call_index": i, **extra})
+                anybad = True
+        run.sample({"history": hspec})
+        if not anybad:
+            print("replay: the recorded history passes now (", data.get("key"), ")")
+        return run.finish(rule="replay of one recorded multi-call history")
+    if rp.get("default_transpiler_history"):
+        found, stats = {}, {}
+        run.oblige("replay_executed", True, "replay")
+        default_transpiler_cases(run, found, stats, random.Random(0), only=rp["default_transpiler_history"])
+        for key, (what, r2) in found.items():
+            print("replay reproduces:", key, what)
+            run.find(key, what, r2)
+        if not found:
+            print("replay: the recorded default-transpiler history passes now")
+        return run.finish(rule="replay of one recorded default-transpiler history")
     spec = rp.get("spec")
     if not spec:
         print("replay: nothing to re-run for", data.get("key"))
